@@ -245,7 +245,7 @@ func ntimedHistK(kind string, ops []nop, tags string) {
 	if len(starts) > 0 && starts[len(starts)-1] > 0 {
 		t = append(t, "resetpt")
 	}
-	if seen[2] > 0 || seen[3] > 0 || seg4 || kind == "ntimed.wild" {
+	if seen[2] > 0 || seen[3] > 0 || seg4 || kind == "ntimed.wild" || kind == "ntimed.corner" {
 		t = append(t, "nt")
 	}
 	w.Case(kind, strings.Join(t, ","), fmtNops(ops), lib.V(lib.IL(outs), lib.IL(starts), lib.IL(fresh), lib.Bool(pan)))
@@ -564,7 +564,7 @@ func genNtimed(r *lib.Rng, long bool) {
 		o := off + int64(i)*drift
 		var s sample
 		if wild && r.Intn(4) == 0 {
-			s = wildSample(r)
+			s = wildSampleNt(r)
 		} else {
 			s = mkSample(i, o, out+back, out, r.Range(0, 200000))
 		}
@@ -639,10 +639,11 @@ func edgeSample(r *lib.Rng) (sample, string) {
 	case 8: // the corner: both differences saturated at +292 years (Inv(int64(2^63)) = MaxInt64)
 		t1 := shift(t0, mag(63, 66), true)
 		return sample{t0, t1, t1.add(d()), t0.add(d())}, "corner"
-	case 9: // around the corner: lo + hi within 2^15 of 2^64 - 2^14, not saturated
-		a, b := r.Range(0, 1<<14), r.Range(0, 1<<14)
-		if r.Intn(2) == 0 {
-			a, b = r.Range(0, 1<<11), r.Range(0, 1<<11)
+	case 9: // just below the corner: 2^64 - 2^14 - 2^16 < lo + hi < 2^64 - 2^14, not saturated
+		a := r.Range(0, 1<<14)
+		b := 1<<14 - 1 - a + r.Range(0, 1<<10) // a + b >= 2^14 - 1: lo + hi < 2^64 - 2^14
+		if r.Intn(4) == 0 {
+			b += r.Range(0, 1<<15)
 		}
 		t1 := shift(t0, new(big.Int).SetInt64(maxI64-a), true)
 		t3 := t0.add(d())
@@ -659,6 +660,46 @@ func edgeSample(r *lib.Rng) (sample, string) {
 		return sample{t0, t1, t2, t3}, "negcorner"
 	default:
 		return wildSample(r), "mixed"
+	}
+}
+
+// inCorner: lo + hi >= 2^64 - 2^14 with lo = cTx - sRx, hi = cRx - sTx as Time.Sub
+// gives them (saturated).  There the Ntimed filter can return MaxInt64 for an
+// offset of -292 years (finding ntimed-corner-wrong-sign); such samples are
+// emitted under the kind ntimed.corner only.
+func inCorner(s sample) bool {
+	toBig := func(t ts) *big.Int { b, _ := new(big.Int).SetString(t.String(), 10); return b }
+	sat := func(b *big.Int) *big.Int {
+		mx := big.NewInt(maxI64)
+		mn := new(big.Int).Sub(new(big.Int).Neg(mx), big.NewInt(1))
+		if b.Cmp(mx) > 0 {
+			return mx
+		}
+		if b.Cmp(mn) < 0 {
+			return mn
+		}
+		return b
+	}
+	lo := sat(new(big.Int).Sub(toBig(s.t0), toBig(s.t1)))
+	hi := sat(new(big.Int).Sub(toBig(s.t3), toBig(s.t2)))
+	lim := new(big.Int).Sub(new(big.Int).Lsh(big.NewInt(1), 64), big.NewInt(1<<14))
+	return new(big.Int).Add(lo, hi).Cmp(lim) >= 0
+}
+
+// edgeSampleNt / wildSampleNt: the same families without the corner.
+func edgeSampleNt(r *lib.Rng) (sample, string) {
+	for {
+		if s, f := edgeSample(r); !inCorner(s) {
+			return s, f
+		}
+	}
+}
+
+func wildSampleNt(r *lib.Rng) sample {
+	for {
+		if s := wildSample(r); !inCorner(s) {
+			return s
+		}
 	}
 }
 
@@ -716,7 +757,7 @@ func genNtimedWild(r *lib.Rng) {
 			s = mkSample(i, genOffset(r, r.Intn(4)), 2000000+r.Range(0, 100000), 1000000, 0)
 		} else {
 			var f string
-			s, f = edgeSample(r)
+			s, f = edgeSampleNt(r)
 			fam[f] = true
 		}
 		ops = append(ops, nop{do: true, epoch: epoch, s: s})
@@ -905,6 +946,37 @@ func genLuckyReset(r *lib.Rng) {
 	luckyReset(cap, pick, pre, suf, strings.Join(t, ","))
 }
 
+// cornerCases: a fixed handful of one-sample histories on a new filter around
+// lo + hi = 2^64 - 2^14, with sRx = sTx = 0 so that lo = cTx and hi = cRx (saturated
+// at MaxInt64): judged by the same strict oracle as everything else.  The ones on
+// which the filter answers MaxInt64 (offset -292 years reported as +292 years) are
+// the finding ntimed-corner-wrong-sign; the others must pass.
+func cornerCases() {
+	two63 := new(big.Int).Lsh(big.NewInt(1), 63)
+	at := func(d int64) ts { return tsOfBig(new(big.Int).Add(two63, big.NewInt(d))) } // 2^63 + d ns
+	zero := ts{0, 0}
+	for _, c := range [][2]int64{
+		{5, 5},           // both differences saturated (the example of C17_ntimed_sign_refuted)
+		{-1, -1},         // lo = hi = MaxInt64 exactly
+		{-1, -101},       // lo + hi = 2^64 - 102
+		{-301, -301},     //
+		{-513, -513},     // (lo + hi) / 2 = 2^63 - 513: the last float below 2^63 is 2^63 - 1024
+		{-1025, -1025},   //
+		{-4001, -4001},   // inside the corner, fine
+		{-8192, -8192},   // lo + hi = 2^64 - 2^14 exactly: the edge of the corner, fine
+		{-8193, -8193},   // outside the corner
+		{-20001, -20001}, // outside the corner
+		{-1, -30001},     // outside the corner, one difference saturated
+	} {
+		s := sample{at(c[0]), zero, zero, at(c[1])}
+		tag := "in"
+		if !inCorner(s) {
+			tag = "out"
+		}
+		ntimedHistK("ntimed.corner", []nop{{do: true, epoch: 0, s: s}}, tag)
+	}
+}
+
 // ---- fixed histories (corpus) ----
 
 func corpus() {
@@ -1059,7 +1131,7 @@ func replay(kind, tags, args string) {
 			}
 		}
 		ntimedReset(rd(lists[0]), rd(lists[1]), rd(lists[2]), strings.Join(how, ","))
-	case "ntimed.hist", "ntimed.wild":
+	case "ntimed.hist", "ntimed.wild", "ntimed.corner":
 		var ops []nop
 		for _, o := range parseOps(tok, 0) {
 			if o[0] == "1" {
@@ -1097,6 +1169,7 @@ func main() {
 		n = 15000
 	}
 	corpus()
+	cornerCases()
 	for i := 0; i < n; i++ {
 		genLucky(r, i%40 == 0)
 		genNtimed(r, i%8 == 0)
